@@ -64,9 +64,7 @@ def poolEnv (vfix : Bool) : Env :=
   { lex := lexId, emptyLex := 12, strLt := fun a b => lexStr a < lexStr b, num := poolNum,
     litNorm := poolLitNorm, constVal := poolConstVal, back := poolBack, kind := poolKind, vfix := vfix }
 
-/-- the null policy of the code as it is: since /repo commit ea119b4 (`set_null` keeps its validity
-mask as long as the vector) every null is recorded. `poolEnv false` is the vector before that
-commit (witness `w_null_lost_after_first`). -/
+/-- `Env.vfix` is read by `Sparql.Old` only (the `ValueVector` of before /repo commit ea119b4) -/
 def asIs : Bool := true
 
 /-! ### parsing -/
@@ -305,27 +303,9 @@ def grpVars : Grp → List Nat
 def showTriples (l : List Triple) : String :=
   joinWith "," (sortStrs (l.map fun t => s!"{t.s}.{t.p}.{t.o}"))
 
-/-! ### the domain the row-wise model covers -/
+/-! ### the domain of the stream -/
 
-/-- column count of every row the plan hands on -/
-def widthsOk (t : Table) : Bool := t.rows.all fun r => r.length == t.cols.length
-
-/-- unions of branches with a different number of columns are modelled at the top of the WHERE
-clause only (below a join the engine's column vectors get different lengths, which a row-wise
-model does not describe) -/
-def raggedOk (top : Bool) : Pat → Bool
-  | .unit => true
-  | .scan _ => true
-  | .join a b => raggedOk false a && raggedOk false b
-  | .leftJoin a b _ => raggedOk false a && raggedOk false b
-  | .filter _ a => raggedOk top a
-  | .union a b => (top || (patCols a).length == (patCols b).length) && raggedOk top a && raggedOk top b
-
-def topRagged : Pat → Bool
-  | .filter _ a => topRagged a
-  | .union a b => (patCols a).length != (patCols b).length || topRagged a || topRagged b
-  | _ => false
-
+/-- blank nodes cannot be written as constants (in a pattern they are variables) -/
 def noBlankConst (cs : List Nat) : Bool := cs.all fun c => poolKind c != .blank
 
 /-! ### signatures: the first hypothesis of the partial theorems that the line violates -/
@@ -347,24 +327,42 @@ def bodyRows (s : String) : List String :=
   | [_, b] => if b == "" then [] else b.splitOn ";"
   | _ => []
 
-/-- signature of a model ≠ spec deviation on a query line -/
-def querySig (st : Store) (full : List Triple) (G : List Triple) (g : Grp) (distinct ordered sliced : Bool)
-    (modelFix modelAsIs specStr : String) : String :=
+def exprVars : Expr → List Nat
+  | .eq a b | .ne a b | .lt a b => ptCols a ++ ptCols b
+  | .bound v => [v]
+  | .not e => exprVars e
+  | .and a b | .or a b => exprVars a ++ exprVars b
+
+/-- an OPTIONAL whose FILTER reads a variable the optional part does not bind: the standard
+evaluates the FILTER on the joined solution, the engine inside the optional part -/
+def optFilterScope : Pat → Bool
+  | .unit | .scan _ => false
+  | .join a b | .union a b => optFilterScope a || optFilterScope b
+  | .filter _ a => optFilterScope a
+  | .leftJoin a b none => optFilterScope a || optFilterScope b
+  | .leftJoin a b (some e) =>
+    (exprVars e).any (fun v => !(patCols b).contains v) || optFilterScope a || optFilterScope b
+
+/-- a join (or OPTIONAL) on a variable that one side may leave unbound: the engine's join takes a null
+for a value that equals nothing, the algebra takes the variable from the other side -/
+def joinUnbound : Pat → Bool
+  | .unit | .scan _ => false
+  | .join a b | .leftJoin a b _ =>
+    (patCols a).any (fun v => (patCols b).contains v && !((certain a).contains v && (certain b).contains v)) ||
+      joinUnbound a || joinUnbound b
+  | .union a b => joinUnbound a || joinUnbound b
+  | .filter _ a => joinUnbound a
+
+/-- signature of a model ≠ spec deviation on a query line: the first cause in a fixed order -/
+def querySig (G : List Triple) (g : Grp) (ordered sliced : Bool) (model specStr : String) : String :=
   let code := transCode g
-  let std := transStd g
-  if modelAsIs == "err" then
-    (if (exec (poolEnv asIs) st full code).isNone then "sparql-empty-group-error"
-     else if !unionAligned code then "sparql-union-columns-of-first-branch"
-     else "sparql-variable-not-a-column-error")
-  else if ordered && sortStrs (bodyRows modelAsIs) == sortStrs (bodyRows specStr) &&
-      (modelAsIs.splitOn "|").head? == (specStr.splitOn "|").head? then "sparql-order-by"
-  else if modelFix != modelAsIs then "sparql-null-lost-after-first"
-  else if !patLinear code then "sparql-repeated-variable-in-pattern"
+  let std := simpUnit (transStd g)
+  if model == "err" then "sparql-variable-not-a-column-error"
+  else if ordered && sortStrs (bodyRows model) == sortStrs (bodyRows specStr) &&
+      (model.splitOn "|").head? == (specStr.splitOn "|").head? then "sparql-order-by"
   else if (patConsts code).any (fun c => poolLitNorm c != c) then "sparql-literal-constant-loses-tag"
-  else if !unionAligned code then "sparql-union-columns-of-first-branch"
-  else if normOpt (simpUnit std) != code then "sparql-optional-placement"
-  else if distinct then "sparql-distinct-ignored"
-  else if patHasOptional code then "sparql-unbound-handling"
+  else if optFilterScope std then "sparql-optional-filter-scope"
+  else if joinUnbound code then "sparql-unbound-handling"
   else if lexClash (poolEnv asIs) (triplesTerms G ++ patConsts code) then "sparql-terms-compared-as-strings"
   else if patHasFilter code then "sparql-filter-semantics"
   else if ordered then "sparql-order-by"
@@ -387,11 +385,11 @@ def mkCtx (io ts sc n : String) : Option Ctx := do
   let full ← if sc == "-" then some st.triples else parseTriples sc
   pure { st := st, full := full, G := st.triples, n := ← n.toNat? }
 
-def inDomainPat (p : Pat) : Bool := noBlankConst (patConsts p) && raggedOk true p
+def inDomainPat (p : Pat) : Bool := noBlankConst (patConsts p)
 
-/-- model output of a SELECT, for either null policy -/
-def runSelect (vfix : Bool) (c : Ctx) (q : Select) : String :=
-  match execSelect (poolEnv vfix) c.st c.full q with
+/-- model output of a SELECT -/
+def runSelect (_vfix : Bool) (c : Ctx) (q : Select) : String :=
+  match execSelect (poolEnv asIs) c.st c.full q with
   | none => "err"
   | some t => showTable t.cols t.rows (q.order.map (·.1))
 
@@ -405,8 +403,8 @@ def specSelectStr (c : Ctx) (q : Select) : String :=
 def countRowCells (env : Env) (r : CountRow) : Row :=
   (r.key.map fun k => match k with | some x => Cell.str (env.lex x) | none => .null) ++ [.int r.count]
 
-def runCount (vfix : Bool) (c : Ctx) (q : Count) : String :=
-  match execCount (poolEnv vfix) c.st c.full q with
+def runCount (_vfix : Bool) (c : Ctx) (q : Count) : String :=
+  match execCount (poolEnv asIs) c.st c.full q with
   | none => "err"
   | some t => showTable t.cols t.rows (q.order.map (·.1))
 
@@ -426,10 +424,10 @@ def chkStr (sliced full : String) : String :=
   if sliced == "err" || full == "err" then "err"
   else s!"n={(bodyRows sliced).length};sub={if subBag (bodyRows sliced) (bodyRows full) then 1 else 0}"
 
-def selectStarAfter (vfix : Bool) (st : Store) (full : List Triple) : String :=
+def selectStarAfter (_vfix : Bool) (st : Store) (full : List Triple) : String :=
   let q : Select := { distinct := false, proj := none, order := [], offset := none, limit := none,
                       where_ := .triples [⟨.var 0, .var 1, .var 2⟩] .nil }
-  match execSelect (poolEnv vfix) st full q with
+  match execSelect (poolEnv asIs) st full q with
   | none => "err"
   | some t => showTable t.cols t.rows []
 
@@ -459,25 +457,19 @@ def updateConsts : Update → List Nat
 
 def backStable (env : Env) (terms : List Nat) : Bool := terms.all fun t => env.back (env.lex t) == t
 
-def updateSig (c : Ctx) (u : Update) (modelFix modelAsIs : String) : String :=
+def updateSig (c : Ctx) (u : Update) (model : String) : String :=
   let env := poolEnv asIs
   let plan := updatePlan u
-  if modelAsIs.startsWith "err" then "sparql-update-rejected"
-  else if modelFix != modelAsIs then "sparql-null-lost-after-first"
+  if model.startsWith "err" then "sparql-update-rejected"
   else if (updateConsts u).any (fun k => poolLitNorm k != k) then "sparql-literal-constant-loses-tag"
   else match u with
     | .insertData _ | .deleteData _ => "sparql-update-data"
-    | .deleteWhere tps =>
-      if tps.length > 1 then "sparql-delete-where-sequential"
-      else if !backStable env (triplesTerms c.G) then "sparql-update-term-from-string"
-      else "sparql-update-other"
-    | .modify _ _ w =>
-      if (match exec env c.st c.full plan with
-          | some t => t.updRows != t.rows
-          | none => false) then "sparql-update-ignores-selection"
-      else if !backStable env (triplesTerms c.G) then "sparql-update-term-from-string"
-      else if normOpt (simpUnit (transStd w)) != plan || !patLinear plan || !unionAligned plan then "sparql-update-where-translation"
+    | _ =>
+      if !backStable env (triplesTerms c.G) then "sparql-update-term-from-string"
+      else if optFilterScope (simpUnit (match u with | .modify _ _ w => transStd w | _ => plan)) then "sparql-optional-filter-scope"
+      else if joinUnbound plan then "sparql-unbound-handling"
       else if lexClash env (triplesTerms c.G ++ patConsts plan) then "sparql-terms-compared-as-strings"
+      else if patHasFilter plan then "sparql-filter-semantics"
       else "sparql-update-other"
 
 /-- the signature is computed only for a deviation -/
@@ -488,25 +480,23 @@ def handle (args : List String) : Option Proto.Out :=
   | ["sel", io, ts, sc, n, qs] => do
     let c ← mkCtx io ts sc n
     let q ← parseSelect qs
-    if !inDomainPat (transCode q.where_) ||
-        (topRagged (transCode q.where_) && (q.proj.isSome || !q.order.isEmpty || q.offset.isSome || q.limit.isSome)) then
-      pure { model := "unmodelled", spec := "-" }
+    if !inDomainPat (transCode q.where_) then pure { model := "unmodelled", spec := "-" }
     else
       let m := runSelect asIs c q
       let sliced := q.offset.isSome || q.limit.isSome
       if sliced && q.order.isEmpty then pure { model := m, spec := "-" }     -- any such subset is right: see `chk`
       else
         let s := specSelectStr c q
-        pure (mk m s fun _ => querySig c.st c.full c.G q.where_ q.distinct (!q.order.isEmpty) sliced (runSelect asIs c q) m s)
+        pure (mk m s fun _ => querySig c.G q.where_ (!q.order.isEmpty) sliced m s)
   | ["chk", io, ts, sc, n, qs] => do
     let c ← mkCtx io ts sc n
     let q ← parseSelect qs
-    if !inDomainPat (transCode q.where_) || topRagged (transCode q.where_) then pure { model := "unmodelled", spec := "-" }
+    if !inDomainPat (transCode q.where_) then pure { model := "unmodelled", spec := "-" }
     else
       let whole := { q with offset := none, limit := none }
       let m := chkStr (runSelect asIs c q) (runSelect asIs c whole)
       let s := chkStr (specSelectStr c q) (specSelectStr c whole)
-      pure (mk m s fun _ => querySig c.st c.full c.G q.where_ q.distinct false true m m s)
+      pure (mk m s fun _ => querySig c.G q.where_ false true m s)
   | ["cnt", io, ts, sc, n, qs] => do
     let c ← mkCtx io ts sc n
     let q ← parseCount qs
@@ -517,20 +507,14 @@ def handle (args : List String) : Option Proto.Out :=
       if sliced && q.order.isEmpty then pure { model := m, spec := "-" }
       else
         let s := specCountStr c q
-        let sig := fun (_ : Unit) =>
-          let sig0 := querySig c.st c.full c.G q.where_ false (!q.order.isEmpty) sliced m m s
-          -- a Sort above the aggregate rebuilds every row into String columns: the counts are gone
-          if m != "err" && !q.order.isEmpty then "sparql-count-column-type-lost"
-          else if sig0 == "sparql-order-by" || sig0 == "sparql-slice" then "sparql-count-column-type-lost"
-          else if sig0 == "sparql-other" || sig0 == "sparql-unbound-handling" then "sparql-count-counts-unbound" else sig0
-        pure (mk m s sig)
+        pure (mk m s fun _ => querySig c.G q.where_ (!q.order.isEmpty) sliced m s)
   | ["upd", io, ts, sc, n, us] => do
     let c ← mkCtx io ts sc n
     let u ← parseUpdate us
-    if !noBlankConst (updateConsts u) || !raggedOk true (updatePlan u) then pure { model := "unmodelled", spec := "-" }
+    if !noBlankConst (updateConsts u) then pure { model := "unmodelled", spec := "-" }
     else
       let m := runUpdate asIs c u
-      pure (mk m (specUpdateStr c u) fun _ => updateSig c u m m)
+      pure (mk m (specUpdateStr c u) fun _ => updateSig c u m)
   | _ => none
 
 end Grafeo.DriverSparql
